@@ -149,6 +149,8 @@ theorem tso_structure_facts :
     PdModel.Generated.Tso.syncHoldsWindowMux = true ∧
     PdModel.Generated.Tso.updateHoldsWindowMux = true ∧
     PdModel.Generated.Tso.resetHoldsWindowMux = true ∧
+    PdModel.Generated.Tso.resetHoldsTsoMux = true ∧
+    PdModel.Generated.Tso.resetMemHoldsTsoMux = true ∧
     PdModel.Generated.Tso.generateHoldsTsoMux = true ∧
     PdModel.Generated.Tso.setPhysicalHoldsTsoMux = true ∧
     PdModel.Generated.Tso.maxLogical = 2 ^ PdModel.Generated.Tso.physicalShiftBits := by decide
